@@ -42,7 +42,11 @@ let report id nlink_one check x o =
 
 let prof = if Array.length Sys.argv > 2 && Sys.argv.(2) = "release" then Release else Debug
 
+exception Case_timeout
+let case_timeout = try int_of_string (Sys.getenv "MODEL_CASE_TIMEOUT") with _ -> 20
+
 let bytes_mode () =
+  Sys.set_signal Sys.sigalrm (Sys.Signal_handle (fun _ -> raise Case_timeout));
   let ic = open_in Sys.argv.(1) in
   (try
     while true do
@@ -53,7 +57,8 @@ let bytes_mode () =
         let check = (check = "1") in
         let nlink_one = (nlink = "1") in
         let x = unhex data in
-        (match handler with
+        ignore (Unix.alarm case_timeout);
+        (try (match handler with
          | "gzip" ->
            (match gzip_init epoch with
             | None -> Printf.printf "%s InitFail %s\n" id (hex x)
@@ -61,7 +66,13 @@ let bytes_mode () =
          | "ar" -> report id nlink_one check x (ar_process epoch x)
          | "pyc-zero-mtime" -> report id nlink_one check x (pyc_zero_mtime x)
          | "javadoc" -> report id nlink_one check x (javadoc_process epoch x)
+         | "pyc" -> report id nlink_one check x (pyc_process x)
          | _ -> Printf.printf "%s NoModel -\n" id)
+         with Case_timeout -> Printf.printf "%s ModelTimeout -\n" id
+            | Out_of_memory -> Printf.printf "%s ModelTimeout -\n" id
+            | Stack_overflow -> Printf.printf "%s ModelTimeout -\n" id);
+        ignore (Unix.alarm 0);
+        flush stdout
       | _ -> ()
     done
   with End_of_file -> ());
@@ -89,6 +100,7 @@ let handler_fun name epoch =
   | "ar" -> Some ((fun x -> ar_process epoch x), ar_opens_output)
   | "pyc-zero-mtime" -> Some ((fun x -> pyc_zero_mtime x), (fun _ -> false))
   | "javadoc" -> Some ((fun x -> javadoc_process epoch x), (fun _ -> true))
+  | "pyc" -> Some ((fun x -> pyc_process x), (fun _ -> false))
   | _ -> None
 
 let ext_of_handler = function
